@@ -192,7 +192,8 @@ KzgPlans(s) ==
   \cup {P("short_points", "not_accept", [s EXCEPT !.points = DropLast(s.points)])}
   \cup {P("short_comms", "not_accept", [s EXCEPT !.comms = DropLast(s.comms)])}
   \cup {P("long_proofs", "not_accept", [s EXCEPT !.proofs = Append(s.proofs, s.proofs[n])])}
-  \cup {P("long_values_false", "not_accept", [s EXCEPT !.vals = Append(s.vals, [s.vals[n] EXCEPT !.d = 1])])}
+  \* a surplus value has no commitment, point or proof: it is not a claim, the property is silent
+  \cup {P("long_values_false", "any", [s EXCEPT !.vals = Append(s.vals, [s.vals[n] EXCEPT !.d = 1])])}
   \cup {P("empty_proofs_all_false", "not_accept",
           [s EXCEPT !.proofs = <<>>, !.vals = [i \in DOMAIN s.vals |-> [s.vals[i] EXCEPT !.d = 1]]])}
   \* a consistent shorter batch is just another honest statement
